@@ -9,6 +9,7 @@ import (
 	fl "go.etcd.io/bbolt/internal/freelist"
 	"go.etcd.io/bbolt/zverif/boltfmt"
 	"go.etcd.io/bbolt/zverif/refmodel"
+	"go.etcd.io/bbolt/zverif/vsync"
 )
 
 // DecodeFile decodes the state the file at path currently holds (winner meta).
@@ -190,7 +191,7 @@ func (x *Exec) TxCheck(what string) *Fail {
 		return nil
 	}
 	var errs []string
-	for e := range tx.Check() {
+	for e := range vsync.RecvFrom(tx.Check()).Range() {
 		errs = append(errs, e.Error())
 	}
 	if len(errs) > 0 {
